@@ -154,6 +154,71 @@ def r_writeback_kind(ctx, model):
     ctx.floor("stores into the table", n, 1)
 
 
+def r_dtype_provenance(ctx, model):
+    """no working array takes its element type from a supplied column: `*_like(<column data>)`, `numpy.empty(..., dtype=<column>.dtype)`,
+    `<column data>.copy()` filled with other columns.  An integer-typed first column would then truncate every later value."""
+    f = model.func(FILL)
+    w = model.where(FILL, f)
+    params = [a.arg for a in f.args.args]
+    table = params[0]
+    tainted = {table}
+    # names that carry column data (and therefore a column's dtype): propagated to a fixed point through assignments, loops and appends
+    def expr_tainted(e):
+        for n in ast.walk(e):
+            if isinstance(n, ast.Name) and n.id in tainted:
+                return True
+        return False
+    FRESH_FLOAT = {"zeros", "ones", "eye", "identity", "full", "empty", "arange", "linspace", "float64", "float"}
+    changed = True
+    while changed:
+        changed = False
+        for st in ast.walk(f):
+            tgts, val = [], None
+            if isinstance(st, ast.Assign):
+                tgts, val = st.targets, st.value
+            elif isinstance(st, (ast.For, ast.comprehension)):
+                tgts, val = [st.target], st.iter
+            elif isinstance(st, ast.Expr) and isinstance(st.value, ast.Call) and isinstance(st.value.func, ast.Attribute) and st.value.func.attr in ("append", "extend", "insert"):
+                if isinstance(st.value.func.value, ast.Name) and any(expr_tainted(a_) for a_ in st.value.args) and st.value.func.value.id not in tainted:
+                    tainted.add(st.value.func.value.id)
+                    changed = True
+                continue
+            if val is None or not expr_tainted(val):
+                continue
+            if isinstance(val, ast.Call) and (dotted_name(val.func) or "").split(".")[-1] in FRESH_FLOAT | {"len", "lower", "index", "search", "match", "str", "list", "keys", "tolist"}:
+                continue            # counts, names, freshly typed arrays: no data dtype carried
+            if isinstance(val, ast.Call) and any(k_.arg == "dtype" and "float" in src(k_.value) for k_ in val.keywords):
+                continue
+            for t in tgts:
+                for nm in ast.walk(t):
+                    if isinstance(nm, ast.Name) and isinstance(nm.ctx, ast.Store) and nm.id not in tainted:
+                        # loop variables over column NAMES (elast.columns, keys) carry names, not data
+                        if isinstance(st, (ast.For, ast.comprehension)) and isinstance(val, ast.Attribute) and val.attr in ("columns", "index"):
+                            continue
+                        tainted.add(nm.id)
+                        changed = True
+    bad = []
+    for c in ast.walk(f):
+        if not isinstance(c, ast.Call):
+            continue
+        name = (dotted_name(c.func) or "")
+        last = name.split(".")[-1]
+        explicit_float = any(k_.arg == "dtype" and "float" in src(k_.value) for k_ in c.keywords)
+        if last in ("empty_like", "zeros_like", "ones_like", "full_like") and c.args and expr_tainted(c.args[0]) and not explicit_float:
+            bad.append(f"{src(c)[:80]} (line {c.lineno})")
+        for k_ in c.keywords:
+            if k_.arg == "dtype" and isinstance(k_.value, ast.Attribute) and k_.value.attr == "dtype" and expr_tainted(k_.value.value):
+                bad.append(f"{src(c)[:80]} (line {c.lineno})")
+        if last == "astype" and c.args and isinstance(c.args[0], ast.Attribute) and c.args[0].attr == "dtype" and expr_tainted(c.args[0].value):
+            bad.append(f"{src(c)[:80]} (line {c.lineno})")
+    ctx.check(not bad, "no working array inherits its element type from a supplied column", w,
+              expected="arrays that collect several columns are created with a floating type (numpy.array of the list of columns, zeros/empty with float dtype)",
+              found="; ".join(bad) or f"none ({len(tainted)} names carry column data)",
+              explanation="a working array is allocated with the dtype of one supplied column (e.g. numpy.empty_like(first column, shape=...)): when that column "
+                          "is integer-typed the values of the other columns are truncated on assignment - the outcome depends on integer-versus-float column "
+                          "type and on column order", key="dtype.provenance")
+
+
 def r_only_moduli(ctx, model):
     w = model.where(FILL)
     cols = ["V", "flag", "P", "c11", "c12", "c44"]
@@ -224,6 +289,7 @@ RULES = [
     ("R09.3", "relations file: bound on every path, directory shadowing, user file", r_file),
     ("R09.4", "case-insensitive column matching without duplicates", r_case),
     ("R09.5", "write-back replaces columns (dtype-independent)", r_writeback_kind),
+    ("R09.5b", "no working array takes its element type from a supplied column", r_dtype_provenance),
     ("R09.6", "only modulus columns are overwritten or dropped", r_only_moduli),
     ("R09.7", "CLI options, defaults and schema keys agree with fill_cij's parameters", r_cli),
 ]
